@@ -1,6 +1,13 @@
+use mc_validate::checks;
+
 fn main() {
     let ctx = mc_core::Ctx::from_args();
     match ctx.prop.as_str() {
+        "C33" => checks::c33::run(ctx),
+        "C34" => checks::c34::run(ctx),
+        "C35" => checks::c35::run(ctx),
+        "C36" => checks::c36::run(ctx),
+        "C37" => checks::c37::run(ctx),
         p => mc_core::report::machinery_failure(&format!("mc-validate does not serve {p} yet")),
     }
 }
